@@ -33,7 +33,7 @@ for _k in M.REAL_KINDS:
             CELLS.append((_k, _o, _c))
 
 INVALID_CLASSES = ("w_past", "wb_past", "wb_first_nonzero", "wb_b_nonincreasing", "wb_g_nonincreasing",
-                   "wb_overlap", "wb_offset_past_end", "wb_len_mismatch")
+                   "wb_overlap", "wb_offset_past_end", "wb_len_mismatch", "wb_negative", "w_negative", "w_wrap", "wb_wrap")
 
 MISMATCH_FIELDS = ("class", "size", "order", "subdir_s", "file_ms", "n", "d", "is_complex", "nsub", "continuous")
 
@@ -68,6 +68,26 @@ def _gen_invalid(rng, cfg, sess, salt):
             return None
         g0 = rng.choice([A - 1, 0, rng.randrange(0, A)])
         return {"op": "wb", "g": [g0, g0 + ln + 3], "b": [0, ln], "len": 2 * ln, "salt": salt, "invalid": cls}
+    if cls == "w_negative":
+        rel = -rng.choice([1, 5, cap, 2**31, 2**63])
+        return {"op": "w", "rel": rel, "_rel": rel, "len": ln, "salt": salt, "invalid": cls}
+    if cls in ("w_wrap", "wb_wrap"):
+        # start + index does not fit in 64 bits: in the library's arithmetic the data would land at / before the
+        # recording start, i.e. at or before indices already written
+        if cfg.start < 2:
+            return None
+        k = rng.choice([1, 5, min(cfg.start, cap), cfg.start, max(1, cfg.start - A), max(1, cfg.start - A - 1)])
+        k = max(1, min(k, cfg.start))
+        rel = 2**64 - k
+        if rng.random() < 0.25:
+            rel, ln = 2**64 - cfg.start - 1, max(2, ln)  # first sample fits, the last one does not
+        if rel < A:
+            return None
+        if cls == "w_wrap":
+            return {"op": "w", "rel": rel, "_rel": rel, "len": ln, "salt": salt, "invalid": cls}
+        if rng.random() < 0.5 or rel - A < 8:
+            return {"op": "wb", "g": [rel], "b": [0], "len": ln, "salt": salt, "invalid": cls}
+        return {"op": "wb", "g": [A + 3, rel], "b": [0, 2], "len": 2 + ln, "salt": salt, "invalid": cls}
     base = A + rng.choice([0, 0, 1, cap])
     g = [base, base + ln + rng.choice([0, 1, 5]), base + 2 * ln + 12]
     b = [0, ln, 2 * ln]
@@ -108,6 +128,15 @@ def _gen_invalid(rng, cfg, sess, salt):
             g = g[:2]
         else:
             b = b[:2]
+    elif cls == "wb_negative":
+        # signed index arrays with a negative entry (an index before the recording start / a negative offset)
+        v = rng.random()
+        if v < 0.4:
+            g = [-rng.choice([1, 5, cap + 7, 2**40]), base + ln + 1, base + 2 * ln + 12]
+        elif v < 0.7:
+            g = [base, -rng.choice([1, 3, 2**33]), base + 2 * ln + 12]
+        else:
+            b = [0, -rng.choice([1, ln]), 2 * ln]
     return {"op": "wb", "g": g, "b": b, "len": n, "salt": salt, "invalid": cls}
 
 
@@ -263,7 +292,7 @@ def gen_plan(prop, tier, rng, i):
             plan["restart_at"] = rng.randrange(4, 70)
             plan["restart_off"] = rng.choice([0.0, 0.5])
             plan["restart_nops"] = rng.choice([1, 1, 2])
-    if prop == "C11" or (prop in ("C08", "C04", "C06") and i % 4 == 3):
+    if prop == "C11" or (prop in ("C08", "C04", "C06", "C01") and i % 4 == 3):
         # (C08 / C04 / C06: a quarter of the channels are multi-session / multi-directory ones - bounds, reads,
         #  file placement and per-session attributes must hold over restarts as well)
         kp = (0.35 if thorough else 0.2) if prop == "C11" else 0.0
@@ -292,6 +321,39 @@ def gen_plan(prop, tier, rng, i):
             plan["sessions"][0]["prelude"] = dict(cfg.to_json(), kind=pk, order=">" if cfg.order == "<" or rng.random() < 0.7 else "<",
                                                   cstyle="real", nsub=1, continuous=True, compression=0, checksum=False,
                                                   channel="pre", uuid="prelude")
+    if len(plan["sessions"]) == 1 and not cfg.tz and rng.random() < (0.3 if prop == "C04" else 0.08):
+        cap_ = cfg.typical_capacity()
+        plan["sessions"][0]["companion"] = dict(cfg.to_json(), subdir_s=cfg.subdir_s * rng.choice([2, 10, 60]), nsub=1,
+                                                cstyle="real", channel="comp", uuid="companion", tz=None)
+        plan["sessions"][0]["companion_step"] = rng.choice([2, cap_, 3 * cap_])
+    if rng.random() < (0.15 if prop == "C11" else 0.04):
+        plan["long_path"] = True
+    if prop == "C19" and i % 6 == 5:
+        # counters near the top of the 64-bit range: recording starts near index 0 (1970) at a multi-GHz rate and the
+        # data resumes decades later, so that the *relative* positions the writer reports pass 2**63.  Only the
+        # bookkeeping is judged in these runs (reading back across a gap of 2**63 samples is not attempted).
+        n_ = rng.randrange(2300000000, 2**32)
+        c2 = M.Cfg(**dict(cfg.to_json(), n=n_, d=1, continuous=False, compression=0, checksum=False,
+                          file_ms=rng.choice([1, 2, 10]), start=rng.choice([0, 1, 12345, n_])))
+        c2.subdir_s = rng.choice([1, 10, 3600])
+        ops, pos = [], 0
+        jump_at = rng.randrange(1, 4)
+        for k in range(rng.randrange(3, 7)):
+            gap = rng.choice([0, 0, 3, 100])
+            if k == jump_at:
+                # lands between 2038 and 2100 and beyond 2**63
+                gap = rng.randrange(2**63, min(2**64 - 2**40, 4102444800 * n_)) - pos
+            ln = rng.choice([1, 2, 7, 50])
+            if rng.random() < 0.7:
+                ops.append({"op": "w", "rel": pos + gap, "_rel": pos + gap, "len": ln, "salt": k + 1})
+            else:
+                ops.append({"op": "wb", "g": [pos + gap, pos + gap + ln + 5], "b": [0, ln], "len": 2 * ln, "salt": k + 1})
+                ln = 2 * ln + 5
+            pos += gap + ln
+        plan = {"engine": "rfsim", "cfg": c2.to_json(), "readdir_seed": plan["readdir_seed"], "regen": False, "cnode": False,
+                "counters_only": True, "queries": [],
+                "sessions": [{"top": "t0", "uuid": "sess0", "start": c2.start, "ops": ops}]}
+        return plan
     model = _plan_model(cfg, plan["sessions"])
     nq = {"C08": 30, "C01": 12}.get(prop, 5)
     plan["queries"] = _gen_queries(rng, cfg, model, nq)
@@ -530,7 +592,24 @@ def _run_session(ctx, tree, cfg, sess, si, chan_model, state):
             pw = RN.open_writer(ptop, pc)
             RN.do_op(pw, pc, {"op": "w", "rel": 0, "_rel": 0, "len": 3, "salt": 9999})
             pw.close()
-        RN.run_session(report, top, c, ops, session=si, sync=True)
+        before_op = None
+        if sess.get("companion"):
+            # a second channel with another subdirectory cadence is recorded by the same process, alternating with
+            # the channel under test: where a file goes must depend on (index, rate, cadences) only
+            cc = M.Cfg(**sess["companion"])
+            ctop = os.path.join(tree, "companion%d" % si)
+            os.makedirs(os.path.join(ctop, cc.channel), exist_ok=True)
+            cw = RN.open_writer(ctop, cc)
+            cpos = [0]
+
+            def before_op(i):
+                try:
+                    RN.do_op(cw, cc, {"op": "w", "rel": cpos[0], "_rel": cpos[0], "len": 2, "salt": 9000 + i})
+                except Exception:  # noqa
+                    pass
+                cpos[0] += max(2, sess["companion_step"])
+            before_op(-1)
+        RN.run_session(report, top, c, ops, session=si, sync=True, before_op=before_op)
 
     if sess.get("mismatch"):
         fp_before[0] = K.fingerprint(chdir, meta=True)
@@ -555,7 +634,8 @@ def _run_session(ctx, tree, cfg, sess, si, chan_model, state):
                     break
                 nfs += 1
                 b1, b2 = os.path.basename(ev.p1), os.path.basename(ev.p2 or "")
-                if ev.kind == "rename" and b1 == "tmp." + b2 and M.RE_RFFILE.match(b2):
+                if ev.kind == "rename" and b1 == "tmp." + b2 and M.RE_RFFILE.match(b2) \
+                        and ev.p2.startswith(os.path.join(sess["top"], c.channel) + "/"):
                     m_ = M.RE_RFFILE.match(b2)
                     finalized_T.add(int(m_.group(2)) * 1000 + int(m_.group(3)))
             if isinstance(ev, dict) and ev.get("ev") == "begin" and ev.get("call") == "op":
@@ -614,6 +694,10 @@ def _run_session(ctx, tree, cfg, sess, si, chan_model, state):
                     if e["ok"]:
                         ctx.v("C05", "invalid_accepted", "invalid call (%s) %s was accepted" % (op["invalid"], _opstr(op)),
                               invalid=op["invalid"])
+                        if op["invalid"] in ("w_wrap", "wb_wrap", "w_negative", "wb_negative"):
+                            # data of unknown (astronomic) extent is on disk now: the tree no longer corresponds to
+                            # the model and reading it back could take for ever; the violation has been recorded
+                            state["broken"] = True
                     fp = K.fingerprint(chdir, meta=True)
                     if fp != fp_before[0]:
                         ctx.v("C05", "rejected_call_changed_files", "rejected call (%s) changed the directory: %s" % (
@@ -880,11 +964,16 @@ def _regenerate(ctx, cfg, model, tree, top, plan, forced=None):
     fin, _, _ = RC.final_files(chdir)
     if not fin:
         return
-    rd0 = digital_rf.DigitalRFReader(top)
-    props0 = dict(rd0.get_properties(cfg.channel))
-    b0 = rd0.get_bounds(cfg.channel)
-    before = [(int(k), M.canon_bits(v)) for k, v in rd0.read(b0[0], b0[1], cfg.channel).items()] if b0[0] is not None else []
-    rd0.close()
+    try:
+        rd0 = digital_rf.DigitalRFReader(top)
+        props0 = dict(rd0.get_properties(cfg.channel))
+        b0 = rd0.get_bounds(cfg.channel)
+        before = [(int(k), M.canon_bits(v)) for k, v in rd0.read(b0[0], b0[1], cfg.channel).items()] if b0[0] is not None else []
+        rd0.close()
+    except Exception as e:  # noqa
+        # the channel cannot even be read before the regeneration: decided by C01 / C08, nothing to compare here
+        res.probe("regeneration_baseline_unreadable_%s" % type(e).__name__)
+        return
     pf = os.path.join(chdir, "drf_properties.h5")
     saved = pf + ".saved"
     os.rename(pf, saved)
@@ -966,9 +1055,12 @@ def _run_cnode(ctx, cfg, ops, sc, cnode_bin):
         df = os.path.join(ddir, "op%d.bin" % i)
         if op["op"] == "w":
             rel = op["rel"] if op["rel"] is not None else sm.next_avail
+            rel &= M.U64  # the C API takes uint64_t: a negative number of the plan is its two's complement there
             valid = sm.classify_write(rel, op["len"]) and op["len"] > 0
             if op["len"] == 0:
                 continue
+            if valid and rel - sm.next_avail > 2**40:
+                continue  # (a negative number of the plan that is a valid, astronomically far index for the C API)
             bits = M.write_data_bits(ccfg, rel, op["len"], op["salt"])
             M.input_array(ccfg, bits).tofile(df)
             lines.append("w %d %d %s" % (rel, op["len"], df))
@@ -976,10 +1068,12 @@ def _run_cnode(ctx, cfg, ops, sc, cnode_bin):
                 pred = sm.apply_write(rel, op["len"], op["salt"])
             expect.append(("w", valid, sm.next_avail))
         else:
-            g, b = op["g"], op["b"]
+            g, b = [x & M.U64 for x in op["g"]], [x & M.U64 for x in op["b"]]
             k = min(len(g), len(b))
             g, b = g[:k], b[:k]
             valid = sm.classify_blocks(g, b, op["len"])
+            if valid and g[-1] - sm.next_avail > 2**40:
+                continue
             if cfg.continuous and k > 1:
                 valid = False  # the C API rejects gapped data in continuous mode
                 res.probe("c_gapped_in_continuous")
@@ -1082,6 +1176,9 @@ def run_plan(prop, plan):
     _counter[0] += 1
     sc = K.new_scratch("rf-%d-%d" % (os.getpid(), _counter[0]))
     tree = os.path.join(sc, "tree")
+    if plan.get("long_path"):
+        # channel directories with an absolute path of 300+ characters (deep archive layouts)
+        tree = os.path.join(sc, "L" * 120, "M" * 110, "tree")
     os.makedirs(tree)
     state = {"scratch": sc}
     seams.install(tree, plan.get("readdir_seed", 1))
@@ -1111,6 +1208,15 @@ def run_plan(prop, plan):
                     early_reader = digital_rf.DigitalRFReader(list(tops))
                 except Exception as e:  # noqa
                     ctx.v("C01", "reader_construct_fails", "%s: %s" % (type(e).__name__, e))
+                if early_reader is not None and si < len(plan["sessions"]) - 1:
+                    # the early reader polls the whole window the recording is going to cover (most of it does not
+                    # exist yet); what it returns now must be what is there now, and nothing it learns may stick
+                    full = _plan_model(cfg, plan["sessions"])
+                    fb = full.bounds_written()
+                    if fb and fb[1] - fb[0] < 10**7:
+                        res.probe("early_reader_polled_planned_window")
+                        for p_, cls, msg in RC.read_vs_model(early_reader, cfg, chan_model, fb[0], fb[1]):
+                            ctx.v(p_, cls, "[early reader, planned window] " + msg)
         ctx.tops = tops
         if state.get("valid_fail_after_reject"):
             if plan.get("_counterfactual"):
@@ -1129,6 +1235,10 @@ def run_plan(prop, plan):
                     ctx.v("C05", "valid_after_rejected_fails", state["valid_fail_after_reject"])
         if state.get("broken") or not tops:
             res.nontrivial = False
+            return res
+        if plan.get("counters_only"):
+            res.probe("counters_beyond_2**63")
+            res.nontrivial = True
             return res
         # ---- files on disk (C04, C06, C07)
         tops = [t for t in tops if os.path.exists(os.path.join(t, cfg.channel, "drf_properties.h5"))]
